@@ -581,7 +581,7 @@ exists w; split=> // k le_k.
 have := H k [:: Q2Qc 1] le_k n0.
 rewrite /apply_weights => E.
 have -> : sumQc (fun j => wq w (j + k * length grid)) (length grid)
-        = sumQc (fun j => Qcmult (wq w (j + k * length grid)) (peval [:: Q2Qc 1] (nth j grid (Q2Qc 0)))) (length grid).
+        = sumQc (fun j => Qcmult (wq w (j + k * length grid)) (peval [:: Q2Qc 1] (List.nth j grid (Q2Qc 0)))) (length grid).
   elim: (length grid) => [|m IH] //=; rewrite IH; congr Qcplus.
   by apply: phi_inj; rewrite phiM phiD phiM !phi0' phi1' mulr0 addr0 mulr1.
 rewrite E; apply: phi_inj; rewrite phi_peval polyQ_pderivn /polyQ /= phi1'.
